@@ -319,7 +319,7 @@ impl Node {
     fn find_include_nodes(&self, collect: &mut Vec<IncludeStatement>, num: usize) {
         for item in self.iter_children() {
             if let Some(node) = item.as_node() {
-                if let Some(include) = typed::Include::cast(item) {
+                if let Some(include) = typed::Include::cast(item).filter(typed::Include::has_path) {
                     collect.push(IncludeStatement {
                         stmt: include,
                         scope: self.kind,
